@@ -737,7 +737,12 @@ def search_without_model(chk, wd, limit=3, budget_s=240):
     t0, found, seen = time.time(), [], set()
     hists = gen_histories(chk, "quick", len(names))
     # one of each kind first
-    hists.sort(key=lambda h: (sum(1 for g in hists[:hists.index(h)] if g["name"].split(":")[0] == h["name"].split(":")[0]), hists.index(h)))
+    seen_kind, keyed = {}, []
+    for k, h in enumerate(hists):                      # one of each kind first
+        kind = h["name"].split(":")[0]
+        keyed.append((seen_kind.get(kind, 0), k, h))
+        seen_kind[kind] = seen_kind.get(kind, 0) + 1
+    hists = [h for _, _, h in sorted(keyed, key=lambda t: (t[0], t[1]))]
     for h in hists:
         if time.time() - t0 > budget_s or len(found) >= limit:
             break
